@@ -84,4 +84,59 @@ open Extracted in
 theorem views_Velocity : structOK false true Velocity.views = true :=
   _root_.Peppi.views_Velocity 
 
+/- from `Peppi.PremisesViews` -/
+open Extracted in
+theorem schema_End : schemaMatchesJson End.views End.framesJson = true :=
+  _root_.Peppi.schema_End 
+
+/- from `Peppi.PremisesViews` -/
+open Extracted in
+theorem schema_Item : schemaMatchesJson Item.views Item.framesJson = true :=
+  _root_.Peppi.schema_Item 
+
+/- from `Peppi.PremisesViews` -/
+open Extracted in
+theorem schema_ItemMisc : schemaMatchesJson ItemMisc.views ItemMisc.framesJson = true :=
+  _root_.Peppi.schema_ItemMisc 
+
+/- from `Peppi.PremisesViews` -/
+open Extracted in
+theorem schema_Position : schemaMatchesJson Position.views Position.framesJson = true :=
+  _root_.Peppi.schema_Position 
+
+/- from `Peppi.PremisesViews` -/
+open Extracted in
+theorem schema_Post : schemaMatchesJson Post.views Post.framesJson = true :=
+  _root_.Peppi.schema_Post 
+
+/- from `Peppi.PremisesViews` -/
+open Extracted in
+theorem schema_Pre : schemaMatchesJson Pre.views Pre.framesJson = true :=
+  _root_.Peppi.schema_Pre 
+
+/- from `Peppi.PremisesViews` -/
+open Extracted in
+theorem schema_Start : schemaMatchesJson Start.views Start.framesJson = true :=
+  _root_.Peppi.schema_Start 
+
+/- from `Peppi.PremisesViews` -/
+open Extracted in
+theorem schema_StateFlags : schemaMatchesJson StateFlags.views StateFlags.framesJson = true :=
+  _root_.Peppi.schema_StateFlags 
+
+/- from `Peppi.PremisesViews` -/
+open Extracted in
+theorem schema_TriggersPhysical : schemaMatchesJson TriggersPhysical.views TriggersPhysical.framesJson = true :=
+  _root_.Peppi.schema_TriggersPhysical 
+
+/- from `Peppi.PremisesViews` -/
+open Extracted in
+theorem schema_Velocities : schemaMatchesJson Velocities.views Velocities.framesJson = true :=
+  _root_.Peppi.schema_Velocities 
+
+/- from `Peppi.PremisesViews` -/
+open Extracted in
+theorem schema_Velocity : schemaMatchesJson Velocity.views Velocity.framesJson = true :=
+  _root_.Peppi.schema_Velocity 
+
 end Peppi.Props.C14
